@@ -346,6 +346,15 @@ func TestC39(t *testing.T) {
 		if rapid.IntRange(0, 3).Draw(rt, "senderUsesPreviousEpoch") == 0 {
 			sIdx--
 		}
+		if rapid.IntRange(0, 3).Draw(rt, "boundaryScenario") == 0 {
+			// receiver shortly before the end of its epoch, sender (clock ahead) already past that end
+			// but still stamping relative to the same epoch: the absolute time may lie beyond the
+			// grace period although it is inside the acceptance window
+			fp.AcceptanceWindow = 30 * time.Second
+			now = time.Unix(base-base%dur+dur-int64(rapid.IntRange(1, 10).Draw(rt, "beforeEnd")), 0)
+			sent = now.Add(time.Duration(rapid.IntRange(0, 20000).Draw(rt, "aheadMs")) * time.Millisecond)
+			sIdx = now.Unix() / dur
+		}
 		sEpoch := drkey.NewEpoch(uint32(sIdx*dur), uint32(sIdx*dur+dur))
 		ts, err := spao.RelativeTimestamp(sEpoch, sent)
 		if err != nil || sent.Before(sEpoch.NotBefore) {
